@@ -47,6 +47,7 @@ def HEAD(h):
         "is_list(HEAD.catch_pattern_failure_label)",
         "has(state.flow_states, HEAD.flow_state_uid)", "is_inst(FS, 'FlowState')", "has(FS, 'flow_id')", "has(FS, 'context')",
         "has(FS, 'action_uids')", "is_dict(FS.context)", "is_list(FS.action_uids)", "FS.context is not state.actions",
+        "has(FS, 'scopes')", "is_dict(FS.scopes)", "len(FS.scopes) == 0",          # A-NO-SCOPE (see REDIR)
         "all(implies(is_inst(val(FS.context, k), 'Action'), has(val(FS.context, k), 'uid') and has(val(FS.context, k), 'flow_scope_count') and "
         "    is_int(val(FS.context, k).flow_scope_count)) for k in keys(FS.context))",
         "has(state.flow_configs, FS.flow_id)", "is_obj(CFG)", "has(CFG, 'elements')", "has(CFG, 'element_labels')",
@@ -95,7 +96,7 @@ EVENT = ["is_inst(EV, 'Event')", "implies(is_inst(EV, 'ActionEvent'), has(EV, 'a
 
 contract(
     SM, "_resolve_action_conflicts", prop="C05",
-    block=("if head == picked_head", "if winning_event.is_equal(competing_event)"), loop_body=True,
+    block=("if head == picked_head", "<end>"), loop_body=True,      # the whole body of `for head in ordered_heads:`
     vars={"state": "V", "head": "V", "picked_head": "V", "winning_event": "V", "advancing_heads": "V"},
     ghost_lists=["aborted", "generated", "cmp", "events"],
     requires=STATE + HEAD("head") + ["is_inst(picked_head, 'FlowHead')", "has(picked_head, 'uid')", "is_str(picked_head.uid)",
@@ -112,6 +113,8 @@ contract(
         "implies(old(head.uid != picked_head.uid), llen(cmp) == 1 and llen(events) == 1 and llen(generated) == 0)",
         # same action as the winner: co-winner - it advances, its flow is not aborted
         "implies(old(head.uid != picked_head.uid) and %s, llen(aborted) == 0 and %s)" % (SAME, APPENDED),
+        # ... from where it stands (also when it sits in an or-group / `when` with a catch label: the catch label is for LOSING heads)
+        "implies(old(head.uid != picked_head.uid) and %s, head.position is old(head.position))" % SAME,
         # different action, catch label: moved to the label and advances, not aborted
         "implies(old(head.uid != picked_head.uid) and not %s and %s, llen(aborted) == 0 and %s and "
         "        head.position == old(val(%s.element_labels, item(head.catch_pattern_failure_label, llen(head.catch_pattern_failure_label) - 1))))"
@@ -140,7 +143,10 @@ CTX_KEYS = ("all(has(%s.context, k) for k in keys_old(%s.context)) and all(old(h
 
 REDIR_VARS = {"state": "V", "winning_event": "V", "competing_event": "V", "competing_flow_state": "V"}
 ACTIONS_WF = ("all(is_inst(val(state.actions, u), 'Action') and %s for u in keys(state.actions))" % (ACTION_WF % (("val(state.actions, u)",) * 3)))
-REDIR_REQ = (["is_obj(state)", "has(state, 'actions')", "is_dict(state.actions)"]
+# A-NO-SCOPE: the redirect is proved for a co-winner whose flow has no open scope (`scopes` empty: the loops that redirect scope entries,
+# added by fix 09995ea, never run); co-winners inside a `when` scope are covered by the native family only
+NO_SCOPE = ["has(%s, 'scopes')" % "competing_flow_state", "is_dict(competing_flow_state.scopes)", "len(competing_flow_state.scopes) == 0"]
+REDIR_REQ = (["is_obj(state)", "has(state, 'actions')", "is_dict(state.actions)"] + NO_SCOPE
              + [w.replace("EV", "winning_event") for w in EVENT] + [w.replace("EV", "competing_event") for w in EVENT]
              + ["is_obj(%s)" % CFS, "is_inst(%s, 'FlowState')" % CFS, "has(%s, 'context')" % CFS, "has(%s, 'action_uids')" % CFS,
                 "is_dict(%s.context)" % CFS, "is_list(%s.action_uids)" % CFS, "%s.context is not state.actions" % CFS,
@@ -187,6 +193,8 @@ contract(
     ],
     raises={"KeyError": "True", "ValueError": "True"},       # winner's action not registered / uid not listed: not excluded here
     assigns=["state.actions", CFS + ".context", CFS + ".action_uids", "attr(val(state.actions, winning_event.action_uid), 'flow_scope_count')"],
+    loops={"for (_, scope_action_uids) in competing_flow_state.scopes.values()": dict(modifies=[], inv=[]),
+           "for (scope_index, scope_action_uid) in enumerate(scope_action_uids)": dict(modifies=[], inv=[])},
 )
 
 # ---------------------------------------------------------------------------------------------------------------------------
@@ -362,4 +370,19 @@ contract(
         "unchanged(group)",
     ],
     raises={},
+)
+
+# ---------------------------------------------------------------------------------------------------------------------------
+# ONE: a single actionable head has no competitor - its action event is generated, nothing is aborted
+# ---------------------------------------------------------------------------------------------------------------------------
+contract(
+    SM, "_resolve_action_conflicts", prop="C05",
+    block=("advancing_heads = actionable_heads", "_generate_action_event_from_actionable_element(state, list(actionable_heads)[0])"),
+    vars={"state": "V", "actionable_heads": "V", "advancing_heads": "V"},
+    ghost_lists=["generated", "aborted"],
+    requires=["is_obj(state)", "is_list(actionable_heads)", "llen(actionable_heads) == 1"],
+    ensures=["llen(generated) == 1 and item(generated, 0) is old(item(actionable_heads, 0))", "llen(aborted) == 0",
+             "advancing_heads is actionable_heads"],
+    raises={"EvalError": "True"},
+    raises_ensures=["llen(aborted) == 0"],
 )
